@@ -484,6 +484,90 @@ fn log_scripts_pol<const INIT: usize, const ALPHA: usize, const K: usize, const 
     }
 }
 
+// ---- roll-over probe -------------------------------------------------------------------------
+pub(crate) fn create_file_stub(_dir: &Path, _file_number: &FileNumber) -> io::Result<std::fs::File> {
+    Ok(unsafe { std::fs::File::from_raw_fd(4) })
+}
+
+pub(crate) fn ownedfd_drop_stub(_fd: &mut std::os::fd::OwnedFd) {}
+
+/// Garbage collection whose position entries roll over to a new WAL file (C04 / C02 / C06): two
+/// empty queues, files 0,1,2 with nothing retained in 0 and 1, the writer on file 2 so close to its
+/// end that the Truncate entry and the first position entry still fit and the second position entry
+/// starts file 3.  The file that received the first position entry (2) must survive the pass: it is
+/// neither older than the oldest retained data nor older than the file that was being written when
+/// the call began; losing it would lose queue "a"'s position on the next restart.
+/// VARIANT 0: truncate("a"); 1: delete_queue of a third queue.
+fn log_gc_rollover<const VARIANT: usize>() {
+    mark_case();
+    mark_nontrivial();
+    let tracker = match FileTracker::from_file_numbers(vec![0, 1, 2]) {
+        Some(t) => t,
+        None => panic!(),
+    };
+    let f0 = tracker.first().clone();
+    let f1 = tracker.next(&f0).unwrap();
+    let f2 = tracker.next(&f1).unwrap();
+    drop(f0);
+    drop(f1);
+    let mut qs = MemQueues::default();
+    qs.ack_position("a", 5);
+    qs.ack_position("bq", 7);
+    if VARIANT == 1 {
+        qs.ack_position("c", 1);
+    }
+    // entry sizes: 7 (frame) + 11 (entry header) + name
+    let first_entry = if VARIANT == 0 { 19 } else { 19 };
+    let start = FILE_BYTES - first_entry - 19;
+    let mut log = new_log(tracker, f2, start, qs, PersistPolicy::Always(PersistAction::Flush));
+    let bytes = if VARIANT == 0 {
+        let r = log.truncate("a", ..=0);
+        let ok = r.is_ok();
+        let v = match &r {
+            Ok(o) => {
+                assert!(o.evicted_records == 0);
+                o.wal_bytes_written as usize
+            }
+            Err(_) => 0,
+        };
+        std::mem::forget(r);
+        assert!(ok, "truncate failed");
+        v
+    } else {
+        let r = log.delete_queue("c");
+        let ok = r.is_ok();
+        let v = match &r {
+            Ok(o) => o.wal_bytes_written as usize,
+            Err(_) => 0,
+        };
+        std::mem::forget(r);
+        assert!(ok, "delete_queue failed");
+        v
+    };
+    assert!(bytes == first_entry + 19 + 20, "C15: the call reports its own entry plus one position entry per empty queue");
+    let w = log.verif_writer();
+    assert!(w.current_file().file_number() == 3, "the second position entry started a new file");
+    assert!(w.verif_offset() == 20, "cursor in the new file");
+    let dir = w.verif_directory();
+    assert!(dir.files.first().file_number() == 2, "C04/C06: the file that received a position entry during this very GC pass was reclaimed");
+    assert!(dir.files.count() == 2, "C06: files 0 and 1 are reclaimed, files 2 and 3 kept");
+    match log.last_position("a") {
+        Ok(p) => assert!(p == Some(4), "C04: position of the idle queue"),
+        Err(e) => {
+            std::mem::forget(e);
+            panic!("queue a vanished");
+        }
+    }
+    match log.last_position("bq") {
+        Ok(p) => assert!(p == Some(6), "C04: position of the idle queue"),
+        Err(e) => {
+            std::mem::forget(e);
+            panic!("queue bq vanished");
+        }
+    }
+    std::mem::forget(log);
+}
+
 macro_rules! lshard {
     ($name:ident, $unwind:expr, $f:ident $(, $arg:expr)*) => {
         #[kani::proof]
@@ -502,5 +586,23 @@ macro_rules! lshard {
 #[cfg(not(any(quickwit_oss_mrecordlog_verif_block16, quickwit_oss_mrecordlog_verif_block32)))]
 mod log_shards {
     use super::*;
+    macro_rules! rollshard {
+        ($name:ident, $v:expr) => {
+            #[kani::proof]
+            #[kani::unwind(9)]
+            #[kani::stub(<std::fs::File as std::io::Write>::write, file_write_stub)]
+            #[kani::stub(std::fs::File::sync_data, sync_data_stub)]
+            #[kani::stub(std::fs::remove_file, remove_file_stub)]
+            #[kani::stub(crate::rolling::directory::filepath, filepath_stub)]
+            #[kani::stub(crate::rolling::directory::create_file, create_file_stub)]
+            #[kani::stub(<std::os::fd::OwnedFd as core::ops::Drop>::drop, ownedfd_drop_stub)]
+            #[kani::stub(crate::frame::header::crc32, crc_const)]
+            pub(crate) fn $name() {
+                log_gc_rollover::<{ $v }>()
+            }
+        };
+    }
+    rollshard!(c06_gcroll_q_trunc, 0);
+    rollshard!(c06_gcroll_q_delete, 1);
     include!(concat!(env!("MRECORDLOG_VERIF_HARNESS_DIR"), "/shards_log.rs"));
 }
